@@ -19,7 +19,6 @@ import (
 	"encoding/json"
 	"fmt"
 	"os"
-	"runtime/pprof"
 	"sort"
 	"strings"
 	"sync"
@@ -165,12 +164,6 @@ type txKey struct{ fork, sender, nonce, value, gas, price, target int }
 
 func main() {
 	r = report.New("C09", "exploration")
-	if pf := os.Getenv("VERIF_C09_PROF"); pf != "" {
-		f, _ := os.Create(pf)
-		pprof.StartCPUProfile(f)
-		defer pprof.StopCPUProfile()
-		go func() { time.Sleep(40 * time.Second); pprof.StopCPUProfile(); f.Close() }()
-	}
 	log.Root().SetHandler(log.DiscardHandler())
 	w = buildWorld()
 	buildBlockWorld()
@@ -498,6 +491,5 @@ func main() {
 			return "not-reproduced"
 		})
 	}
-	pprof.StopCPUProfile()
 	r.Finish()
 }
